@@ -433,6 +433,53 @@ func (h *htxEngine) atomNames(v ssa.Value, seen map[ssa.Value]bool) []string {
 	case *ssa.Parameter:
 		// resolved at call sites (VOCAB); inside the callee it is "an atom"
 		return []string{"<" + x.Name() + ">"}
+	case *ssa.Call:
+		// a module helper that selects the element (e.g. heading level → h1..h6): every atom it can return
+		f := x.Call.StaticCallee()
+		if f == nil || f.Blocks == nil || !h.p.InModule(f) {
+			return nil
+		}
+		var out []string
+		for _, r := range returnsOf(f) {
+			if len(r.Results) != 1 {
+				return nil
+			}
+			rr := h.atomNames(r.Results[0], seen)
+			if rr == nil {
+				return nil
+			}
+			for _, n := range rr {
+				if strings.HasPrefix(n, "<") {
+					return nil // depends on the helper's own parameter
+				}
+			}
+			out = append(out, rr...)
+		}
+		return out
+	case *ssa.UnOp:
+		// an element of a table of atom constants
+		if x.Op != token.MUL {
+			return nil
+		}
+		ia, ok := x.X.(*ssa.IndexAddr)
+		if !ok {
+			return nil
+		}
+		tab, ok := constArrayOf(ia.X)
+		if !ok {
+			return nil
+		}
+		oe := &outcomeEnum{h: h, p: h.p}
+		var out []string
+		for _, v := range tab {
+			n := oe.atomName(v)
+			if n == "?" {
+				return nil
+			}
+			out = append(out, n)
+		}
+		sort.Strings(out)
+		return out
 	}
 	return nil
 }
